@@ -35,12 +35,9 @@ def _payload_of(t, fn):
     """t = discr(*(Try::branch(<fn>(..)) as Continue.0)) : the event a `<fn>()?` returned"""
     if t[0] != "discr" or t[1][0] != "pl":
         return False
-    base = t[1][1]
-    if not (base[0] == "call" and name_is(base[2], "branch") and base[3]):
+    inner = tried(("pl", t[1][1], tuple(x for x in t[1][2] if x != "*")[:2]))
+    if inner is None:
         return False
-    if not any(isinstance(x, tuple) and x[0] == "d" and x[2] == "Continue" for x in t[1][2]):
-        return False
-    inner = base[3][0]
     return inner[0] == "call" and name_is(inner[2], fn) and "Deserializer" in inner[2] and "Iterator" not in inner[2]
 
 
@@ -232,7 +229,7 @@ def j4_merging(ctx):
             for p in ctx.paths(nx):
                 if ends(p) != "loop":
                     continue
-                d = [e for e in p if e[0] == "switch" and e[2][0] == "discr" and e[2][1][0] == "pl" and has_subterm(e[2], lambda s: call_is(s, "next_impl")) and any(isinstance(x, tuple) and x[0] == "d" and x[2] == "Continue" for x in e[2][1][2])]
+                d = [e for e in p if e[0] == "switch" and e[2][0] == "discr" and e[2][1][0] == "pl" and has_subterm(e[2], lambda s: call_is(s, "next_impl")) and any(isinstance(x, tuple) and x[0] == "d" and x[2] in ("Continue", "Ok") for x in e[2][1][2])]
                 v = pv[d[-1][3]] if d and isinstance(d[-1][3], int) else "?"
                 last = decision_on(p, lambda t: call_is(t, "current_event_is_last_text"))
                 trimmed = decision_on(p, lambda t: call_is(t, "inplace_trim_end"))
@@ -265,7 +262,7 @@ def j4_merging(ctx):
             handled = set()
             guarded = True
             for p in ctx.paths(dt):
-                d = [e for e in p if e[0] == "switch" and e[2][0] == "discr" and has_subterm(e[2], lambda s: call_is(s, "next_impl")) and e[2][1][0] == "pl" and any(isinstance(x, tuple) and x[0] == "d" and x[2] == "Continue" for x in e[2][1][2])]
+                d = [e for e in p if e[0] == "switch" and e[2][0] == "discr" and has_subterm(e[2], lambda s: call_is(s, "next_impl")) and e[2][1][0] == "pl" and any(isinstance(x, tuple) and x[0] == "d" and x[2] in ("Continue", "Ok") for x in e[2][1][2])]
                 if not d:
                     continue
                 last = decision_on(p, lambda t: call_is(t, "current_event_is_last_text"))
